@@ -73,6 +73,7 @@ class ParseStream:
 
     def __init__(self, chk, exe, n_grammars, exhaustive_len, extra_inputs, costs=(0, 5), p_anode=0.6, sentences_only=False, max_trees=None, n_families=0):
         self.chk, self.exe = chk, exe
+        self.vary = True
         self.pairs = []
         rng = chk.rng
         self.stats = {'grammars': 0, 'inputs': 0, 'rejected_by_impl': 0, 'sentences': 0, 'nonsentences': 0,
@@ -177,11 +178,18 @@ class ParseStream:
             for ci, cfg in enumerate(cfgs):
                 am = allocmode_for(i, cfg) if allocmode_for else 0
                 cid = 'p%dc%d' % (i, ci)
-                script.append(yvlib.simple_case(cid, g.as_dict(), 1 if strict else 0, cfg, gen.codes_of(g, w), allocmode=am))
-                index.append((i, ci, cfg, am))
+                toks = gen.codes_of(g, w)
+                v = yvlib.vary((self.chk.seed, i, ci), g.as_dict(), toks) if self.vary else None
+                if v:
+                    self.stats['varied_' + ('pad' if 'pad_after' in v else 'pre')] = self.stats.get('varied_' + ('pad' if 'pad_after' in v else 'pre'), 0) + 1
+                script.append(yvlib.simple_case(cid, g.as_dict(), 1 if strict else 0, cfg, toks, allocmode=am, variation=v))
+                index.append((i, ci, cfg, am, v))
         res = yvlib.run_driver(self.exe, '\n'.join(script))
         out = {}
-        for (i, ci, cfg, am), r in zip(index, res):
+        for (i, ci, cfg, am, v), r in zip(index, res):
+            if v:
+                r = yvlib.strip_variation(r, v)
+                r['variation'] = v
             out[(i, ci)] = (cfg, am, r)
         return out
 
